@@ -139,3 +139,44 @@ Example C03_genes_block_nonvacuous :
 Proof. vm_compute. repeat split. Qed.
 Print Assumptions C03_genes_block_nonvacuous.
 End GenesKernel.
+
+(* ================= kernel III: groups and identifier changes inside `with model:` (coq/theories/Groups/Ctx.v) ===========
+   Contexts at specification level: `Enter` saves the state, `Exit` puts it back.  Inside a block only what cobrapy
+   documents / implements as reverted by a context (remove_reactions, remove_metabolites, remove_genes); group edits
+   and identifier assignments are not, and happen outside blocks. *)
+From Cobra.Groups Require Model Inv Proofs Ctx Examples.
+Module GroupsKernel.
+Import Cobra.Groups.Model Cobra.Groups.Inv Cobra.Groups.Proofs Cobra.Groups.Ctx Cobra.Groups.Examples.
+
+Theorem C03_groups_step : forall c o, CInv c -> cop_ok c o -> CInv (fst (cstep vfix c o)).
+Proof. exact cstep_CInv. Qed.
+Print Assumptions C03_groups_step.
+
+Theorem C03_groups_history : forall ops s, Inv s -> cok_run (mkC s []) ops -> Inv (cur (crun vfix ops (mkC s []))).
+Proof.
+  intros ops s W H. apply (crun_CInv ops (mkC s [])); [|exact H]. split; [exact W|constructor].
+Qed.
+Print Assumptions C03_groups_history.
+
+Theorem C03_groups_block_restores : forall v ops c, balanced 0 ops = true -> crun v (Enter :: ops ++ [Exit]) c = c.
+Proof. exact block_restores. Qed.
+Print Assumptions C03_groups_block_restores.
+
+(* non-vacuity: nested blocks that remove members of groups; afterwards the state is the one at the entry *)
+Example C03_groups_block_nonvacuous :
+  let pre := [Do (AddMembers 0 [(CR, 0); (CM, 1); (CG, 1)]); Do (AddGroups [0]); Do (SetId CR 0 7)] in
+  let blk := [Do (RemoveRxn 0 true); Enter; Do (RemoveMet 1 true); Do (RemoveGenes [1] true); Exit; Do (RemoveRxn 2 false)] in
+  let c0 := crun vfix pre (mkC s0 []) in
+  cok_run (mkC s0 []) (pre ++ Enter :: blk ++ [Exit]) /\ balanced 0 blk = true /\
+  crun vfix (Enter :: blk ++ [Exit]) c0 = c0 /\
+  members (cur c0) 0 = [(CR, 0); (CM, 1); (CG, 1)] /\
+  members (cur (crun vfix (Enter :: blk) c0)) 0 = [(CM, 1); (CG, 1)] /\ lst (cur (crun vfix (Enter :: blk) c0)) CR = [1] /\
+  members (cur (crun vfix (Enter :: firstn 4 blk) c0)) 0 = [] /\
+  lst (cur c0) CR = [0; 1; 2].
+Proof.
+  cbn zeta. split; [vm_compute; repeat split; try reflexivity; intros H; try reflexivity; exfalso; apply H; reflexivity|].
+  split; [reflexivity|].
+  split; [apply block_restores; reflexivity|]. vm_compute. repeat split.
+Qed.
+Print Assumptions C03_groups_block_nonvacuous.
+End GroupsKernel.
